@@ -33,7 +33,7 @@ def bounds(tier):
 
 def configs(tier, seed):
     out = []
-    bases = BASES if tier != "quick" else [BASES[1], BASES[2], BASES[4]]
+    bases = BASES if tier != "quick" else [BASES[2], BASES[4], BASES[5]]  # incl. d and f on different centres
     for bi, b in enumerate(bases):
         for tp in al.type_patterns(len(b)):
             for dens in ("psd", "indef"):
